@@ -552,6 +552,30 @@ _more("C09",
       "the model theorem c09_trace_shift (the same statement about ftrace of the model) is not proved yet at this commit: the trace-shift "
       "clause is decided by the metamorphic run on the implementation (testing) plus the arithmetic theorems.",
       "Coq proof (lia over mod 2^16) + row-exhaustive correspondence + metamorphic relabelling runs judged by an extracted predicate")
+_more("C09",
+      "MODEL THEOREM of the trace-shift clause (Conn/C09_Shift.v, Conn/C09_ShiftProofs*.v): shift_vsock da db dc relabels every "
+      "sequence-number-valued field of the connection state (seq_nr, last_sent_seq_nr, snd_una, recovery point / high_rxt, the ack number "
+      "remembered for duplicate counting, FIN numbers in the state, ack numbers of queued messages by da; last_consumed, last_sent_ack_nr, "
+      "the remote FIN number, sequence numbers of queued messages by db; conn_id_send by dc), shift_op the delivered message, shift_vout the "
+      "emitted packets. c09_vstep_shift: vstep (shift s) (shift o) = shift (vstep s o) for EVERY state and event satisfying the boolean "
+      "guard c09_guard_vstep; c09_ftrace_shift / c09_model_trace_shift_ok / c09_model_runs_shift_ok: for every op list satisfying "
+      "c09_guard_trace the trace of the relabelled run is the relabelled trace and the extracted c09_shift_ok holds of the two model "
+      "traces (from vsock_new of the two parameter sets). Proved bottom-up: seq_sub/seq_gt (c09_seq_sub_shift), Segments "
+      "(remove_up_to_ack, calc_flight_size, iter_for_sending, calc_pipe), Recovery::on_ack, state_table, process_incoming_message, "
+      "recv loop, send_data, the recovery and new-data loops, send_tx_queue, split_tx_queue_into_segments, poll_body, the restart loop. "
+      "The guard is dynamic: it follows the step (running the model's own functions for the intermediate states) and asks, at each "
+      "wrap-tolerant comparison, that both operands are u16 values at true modular distance <= WRAP_TOLERANCE, and at each equality test "
+      "that both are u16 values; the atomic condition is tight (c09_seq_sub_shift_tight). Non-vacuity: c09_guard_satisfiable (a scenario "
+      "wrapping both numberings with out-of-order data, an RTO, a SACK fast recovery and both FINs). Outside the guard the clause is FALSE "
+      "of the model: c09_shift_outside_guard_refuted (two segments outstanding at snd_una 65534, ACK number 30000: ignored; relabelled by "
+      "10 it acknowledges everything) - class D4. c09_guard_trace_shift: the guard does not depend on the labelling (the relabelled "
+      "scenario is inside it as well).",
+      "the guard of the theorem (c09_guard_trace) needs the model state, not only the fingerprint; it can be evaluated on the inputs of a "
+      "metamorphic case by the extracted model (c09_guard_trace_cubic, not yet registered in the driver). The fingerprint-level guard "
+      "c09_within_tol used by the check is NOT proved to imply it (needs bounds on how far the numbers move inside one poll: open); "
+      "c09_within_tol_shift shows it judges both runs alike.",
+      "Coq proof (lia over mod 2^16; commutation of the whole connection model with the relabelling, by layers) + row-exhaustive "
+      "correspondence + metamorphic relabelling runs judged by an extracted predicate")
 _more("C10",
       "WHOLE-POLL THEOREMS (Conn/VSock_Poll*.v, 2400 lines): the strengthened joint invariant vs_x (vs_inv + per-segment send-time and "
       "MTU-probe facts + clock range) is preserved by process_incoming_message, recv_loop, process_all_incoming_messages, poll_body, the "
